@@ -1,10 +1,11 @@
 //! unit: u01j
-//! properties: C01 C03
+//! properties: C01 C03 C12
 //! note: which pending HTLCs count towards the next commitment and which are already folded into the balance (ChannelContext::get_next_commitment_htlcs vs get_next_commitment_value_to_self_msat): every pending HTLC is represented exactly once
 //! trusted: R15 (statement slicing): both functions are iterator chains over the channel's HTLC vectors; the unit extracts, on every run, the four `match (state, local)` predicates (the bodies of the `.filter(..)` closures) verbatim into four predicate functions over the real state enums and proves the exactly-once relation between them; the surrounding map/sum/chain plumbing is dropped and not claimed
 //! trusted: payload types of the state enums (InboundHTLCResolution, InboundUpdateAdd, OnionErrorPacket, OnionPacket, PaymentPreimage, AttributionData, HTLCFailReason) are opaque
 //! trusted: R15 (deep slices): revoke_and_ack: the bodies of the two `retain` closures that drop irrevocably removed HTLCs and accumulate value_to_self_msat_diff, and the statement applying the diff to every funding scope, verbatim; InboundHTLCOutput / OutboundHTLCOutput field skeletons; OutboundHTLCOutcome::clone external_body (returns an equal value); hold_time_since / set_hold_time external_body (timing only: `.map(|hold_time| ..)` with a captured &mut is written as a match, R8, and the timestamp argument is dropped); R16 for `&`-patterns; the promotion of the remaining HTLC states in the same function is dropped and not claimed
 //! trusted: R15 (deep slice): mark_outbound_htlc_removed: the per-HTLC block of the search loop verbatim as a function of that HTLC; Sha256 is the external_body wrapper sha256 (R8); PaymentHash equality is structural; error strings dropped
+//! trusted: R15: update_add_htlc: the message-level tests (zero amount literal in the pattern, the others captured) and the two state-update statements verbatim; the channel-state pre-checks (early Err returns) and the call of validate_update_add_htlc (receiver tests proved in u01k) are dropped and not claimed; the stored onion (InboundHTLCResolution::Pending) is opaque; error strings dropped
 //! assume: HTLC amounts and balances <= 21e18 msat; |value_to_self_msat_diff| <= 4e18 while it is accumulated; the resulting balance lies between 0 and the channel value (representation invariant of the channel)
 //! plemma: C01 lemma_each_pending_htlc_exactly_once: an HTLC is never both an output of the next commitment and already credited to the claimer's balance, and a successfully claimed HTLC that is no longer an output is always credited (for both commitments)
 use vstd::prelude::*;
@@ -123,7 +124,7 @@ pub struct Duration {}
 impl Clone for OutboundHTLCOutcome { #[verifier::external_body] fn clone(&self) -> (r: Self) ensures r == *self { unimplemented!() } }
 impl HTLCFailReason { #[verifier::external_body] pub fn set_hold_time(&mut self, hold_time: u32) { unimplemented!() } }
 #[verifier::external_body] pub fn hold_time_since(send_timestamp: Option<Duration>) -> Option<u32> { unimplemented!() }
-pub struct InboundHTLCOutput { pub htlc_id: u64, pub amount_msat: u64, pub payment_hash: PaymentHash, pub state: InboundHTLCState }
+pub struct InboundHTLCOutput { pub htlc_id: u64, pub amount_msat: u64, pub cltv_expiry: u32, pub payment_hash: PaymentHash, pub state: InboundHTLCState }
 pub struct OutboundHTLCOutput { pub htlc_id: u64, pub amount_msat: u64, pub payment_hash: PaymentHash, pub state: OutboundHTLCState, pub source: HTLCSource, pub send_timestamp: Option<Duration> }
 
 //@extract lightning/src/ln/channel.rs :: impl FundedChannel :: fn revoke_and_ack
@@ -238,5 +239,55 @@ pub struct OutboundHTLCOutput { pub htlc_id: u64, pub amount_msat: u64, pub paym
 //@with
     OutboundHTLCState::RemoteRemoved(_) => { htlc.state = OutboundHTLCState::RemoteRemoved(outcome); }, OutboundHTLCState::AwaitingRemoteRevokeToRemove(_) | OutboundHTLCState::AwaitingRemovedRemoteRevoke(_) =>
 //@end
+
+// ---- the peer offers an HTLC: message-level tests and the state update of FundedChannel::update_add_htlc (R15 slice) ----
+pub struct UpdateAddHTLC { pub htlc_id: u64, pub amount_msat: u64, pub cltv_expiry: u32, pub payment_hash: PaymentHash }
+pub struct AddCtx { pub holder_htlc_minimum_msat: u64, pub next_counterparty_htlc_id: u64, pub pending_inbound_htlcs: Vec<InboundHTLCOutput> }
+pub struct AddChannel { pub context: AddCtx }
+impl AddChannel {
+//@extract lightning/src/ln/channel.rs :: impl FundedChannel :: fn update_add_htlc
+//@rw R15
+    fn update_add_htlc<F: FeeEstimator>($params:any) -> $ret { $pre:any if msg.amount_msat == 0 { return Err($e0); } $tests:any core::iter::once(&self.funding) $chain:straight ; self.context.next_counterparty_htlc_id += 1; self.context.pending_inbound_htlcs.push(InboundHTLCOutput { $fields:any }); Ok(()) }
+//@with
+    fn accept_update_add(&mut self, msg: &UpdateAddHTLC) -> Result<(), ChannelError> {
+        if msg.amount_msat == 0 { return Err(ChannelError::close(0)); }
+        $tests
+        self.context.next_counterparty_htlc_id += 1;
+        self.context.pending_inbound_htlcs.push(InboundHTLCOutput { $fields });
+        Ok(())
+    }
+//@rw R8 *
+    ChannelError::close(format!($f:any))
+//@with
+    ChannelError::close(0)
+//@rw R8 *
+    ChannelError::close($s:lit.to_owned())
+//@with
+    ChannelError::close(0)
+//@rw R5
+    InboundHTLCResolution::Pending { update_add_htlc: msg.clone(), }
+//@with
+    InboundHTLCResolution {}
+//@ret r
+//@requires
+    old(self).context.next_counterparty_htlc_id < u64::MAX,
+//@ensures P C01,C12 an-offered-htlc-is-taken-only-with-the-next-id-in-sequence-a-non-zero-amount-at-or-above-our-minimum-and-a-block-height-expiry-and-is-recorded-once-as-announced
+    r is Ok ==> msg.htlc_id == old(self).context.next_counterparty_htlc_id && msg.amount_msat >= 1 && msg.amount_msat >= old(self).context.holder_htlc_minimum_msat && msg.cltv_expiry < 500000000
+        && final(self).context.next_counterparty_htlc_id == old(self).context.next_counterparty_htlc_id + 1
+        && final(self).context.pending_inbound_htlcs@.len() == old(self).context.pending_inbound_htlcs@.len() + 1
+        && final(self).context.pending_inbound_htlcs@.drop_last() == old(self).context.pending_inbound_htlcs@
+        && ({ let h = final(self).context.pending_inbound_htlcs@.last();
+              h.htlc_id == msg.htlc_id && h.amount_msat == msg.amount_msat && h.cltv_expiry == msg.cltv_expiry && h.payment_hash == msg.payment_hash && h.state is RemoteAnnounced }),
+    r is Err ==> final(self).context.next_counterparty_htlc_id == old(self).context.next_counterparty_htlc_id && final(self).context.pending_inbound_htlcs@ == old(self).context.pending_inbound_htlcs@,
+//@mutant skipped_htlc_id_accepted
+    self.context.next_counterparty_htlc_id != msg.htlc_id
+//@with
+    self.context.next_counterparty_htlc_id > msg.htlc_id
+//@mutant id_counter_not_advanced
+    self.context.next_counterparty_htlc_id += 1;
+//@with
+    self.context.next_counterparty_htlc_id += 0;
+//@end
+}
 }
 fn main() {}
